@@ -35,6 +35,9 @@ type Case struct {
 	History    []HistProg `json:"history,omitempty"`
 	Prog       []string   `json:"prog,omitempty"`
 	Sub        []string   `json:"sub,omitempty"`
+	Solo       bool       `json:"solo,omitempty"` // run the statements plainly in sequence (crash attribution)
+	Theme      string     `json:"theme,omitempty"`
+	Params     []string   `json:"params,omitempty"`   // positional parameters the Runner is built with
 	Warm       []string   `json:"warm,omitempty"`     // C31: earlier Run calls on the same Runner, each with a context of its own that is never cancelled
 	PerStmt    bool       `json:"per_stmt,omitempty"` // C31: the program is run one top-level statement per Run call
 	Expect     []string   `json:"expect,omitempty"` // expected stdout lines (wait oracle)
@@ -83,6 +86,9 @@ func GenCase(prop string, root uint64, idx int, tier string) *Case {
 	seed := kit.RunSeed(root, prop, idx)
 	r := kit.NewRand(seed)
 	c := &Case{Property: prop, Idx: idx, Seed: seed, CancelStep: -1, PipeCap: genPipeCap(r.Fork("cap")), Strategy: genStrategy(r.Fork("strategy"))}
+	if pr := r.Fork("params"); pr.Chance(1, 2) {
+		c.Params = kit.Pick(pr, [][]string{{"one", "two", "three"}, {"p 1"}, {"a", "b", "c", "d", "e"}, {"x", ""}})
+	}
 	switch prop {
 	case "C27":
 		genC27(c, r)
@@ -101,13 +107,21 @@ func GenCase(prop string, root uint64, idx int, tier string) *Case {
 func genC27(c *Case, r *kit.Rand) {
 	c.InFunc = r.Chance(1, 3)
 	c.Kind = "isolation"
-	c.Setup = genSetup(r.Fork("setup"), c.InFunc)
-	c.S = genMutations(r.Fork("S"), r.Range(1, 8), c.InFunc, false)
+	c.Theme = genTheme(r.Fork("theme"))
+	c.Setup = append(genSetup(r.Fork("setup"), c.InFunc), themeSetup(c.Theme, r.Fork("tsetup"))...)
+	c.S = genMutationsT(r.Fork("S"), r.Range(1, 8), c.InFunc, false, c.Theme)
 	c.Ctx = kit.Pick(r, isolatingContexts)
 	if c.Ctx == "background" || c.Ctx == "coproc-like-bg-subshell" || c.Ctx == "procsubst-out" || r.Chance(1, 4) {
-		c.T = genMutations(r.Fork("T"), r.Range(0, 3), c.InFunc, true)
+		c.T = genMutationsT(r.Fork("T"), r.Range(0, 3), c.InFunc, true, c.Theme)
 	}
 	c.Faults = genFaults(r.Fork("faults"), []string{"mkfifo-fail", "fifo-open-fail", "exec-fail"})
+	if len(c.T) > 0 {
+		// Faults are counted per run, and the reference run has none: with
+		// parent-side statements present a fault could land in T instead
+		// of S and make the two runs differ for a reason that has nothing
+		// to do with isolation.
+		c.Faults = nil
+	}
 }
 
 // c27Programs builds the test program (with S in its context) and the
@@ -136,16 +150,18 @@ func genC32(c *Case, r *kit.Rand) {
 		genC32Wait(c, r)
 	case 3, 4:
 		c.Kind = "subshell-api"
-		c.Setup = genSetup(r.Fork("setup"), false)
-		c.Prog = genMutations(r.Fork("P"), r.Range(2, 6), false, true)
-		c.Sub = genMutations(r.Fork("Sub"), r.Range(2, 6), false, true)
+		c.Theme = genTheme(r.Fork("theme"))
+		c.Setup = append(genSetup(r.Fork("setup"), false), themeSetup(c.Theme, r.Fork("tsetup"))...)
+		c.Prog = genMutationsT(r.Fork("P"), r.Range(2, 6), false, true, c.Theme)
+		c.Sub = genMutationsT(r.Fork("Sub"), r.Range(2, 6), false, true, c.Theme)
 		c.Prog = append(c.Prog, "echo parent-done")
 	default:
 		c.Kind = "race"
 		c.InFunc = r.Chance(1, 3)
-		c.Setup = genSetup(r.Fork("setup"), c.InFunc)
-		c.S = genMutations(r.Fork("S"), r.Range(1, 5), c.InFunc, true)
-		c.T = genMutations(r.Fork("T"), r.Range(1, 5), c.InFunc, true)
+		c.Theme = genTheme(r.Fork("theme"))
+		c.Setup = append(genSetup(r.Fork("setup"), c.InFunc), themeSetup(c.Theme, r.Fork("tsetup"))...)
+		c.S = genMutationsT(r.Fork("S"), r.Range(1, 5), c.InFunc, true, c.Theme)
+		c.T = genMutationsT(r.Fork("T"), r.Range(1, 5), c.InFunc, true, c.Theme)
 		c.Ctx = kit.Pick(r, []string{"background", "coproc-like-bg-subshell", "procsubst-out", "pipe-both", "bg-cmdsubst", "procsubst-in-bg", "two-bg", "bg-func", "pipe-all",
 			"bg-outliving-subshell", "bg-outliving-cmdsubst", "procsubst-outliving-subshell", "bg-outliving-function-subshell", "bg-in-bg",
 			"pipe-left-fatal", "pipe-all-left-fatal", "pipe-left-exits", "bg-fatal", "cmdsubst-fatal-in-bg",
@@ -332,7 +348,12 @@ func genC29(c *Case, r *kit.Rand) {
 	c.EnvArrays = true
 	c.Setup = []string{"s1=foo"}
 	n := r.Range(3, 12)
+	sg := &sysGen{r: r.Fork("sys"), env: true}
 	for i := 0; i < n; i++ {
+		if r.Chance(2, 5) {
+			c.Prog = append(c.Prog, sg.Stmt())
+			continue
+		}
 		c.Prog = append(c.Prog, kit.Pick(r, c29Pool))
 	}
 	if r.Chance(1, 4) {
@@ -386,26 +407,37 @@ func c30StatusTriple(r *kit.Rand) string {
 func genC30(c *Case, r *kit.Rand) {
 	if r.Chance(1, 4) {
 		c.Kind = "incremental"
+		isg := &sysGen{r: r.Fork("sys")}
 		n := r.Range(3, 10)
 		for i := 0; i < n; i++ {
 			s := kit.Pick(r, c30ProgPool)
 			if r.Chance(1, 4) {
 				s = c30StatusTriple(r)
+			} else if r.Chance(1, 3) {
+				s = isg.Stmt()
 			}
-			if strings.Contains(s, "EXIT") {
+			if strings.Contains(s, "EXIT") || (strings.Contains(s, "trap") && (strings.HasSuffix(s, " 0") || strings.Contains(s, " 0;") || strings.Contains(s, " 0\n"))) {
 				continue // the documented exception: only a whole-file run fires the EXIT trap
 			}
 			c.Prog = append(c.Prog, s)
+		}
+		if r.Chance(1, 2) {
+			c.Prog = append(c.Prog, dumpLines(false)...)
 		}
 		c.Stdin = kit.Pick(r, []string{"nil", "data:in1\nin2\n", "closed"})
 		c.Strategy = Strategy{Kind: "sequential"}
 		return
 	}
 	c.Kind = "reset"
+	sg := &sysGen{r: r.Fork("sys")}
 	nh := r.Range(1, 6)
 	for i := 0; i < nh; i++ {
 		h := HistProg{CancelStep: -1, Reset: r.Chance(1, 5)}
 		for j := r.Range(1, 5); j > 0; j-- {
+			if r.Chance(1, 3) {
+				h.Lines = append(h.Lines, sg.Stmt())
+				continue
+			}
 			h.Lines = append(h.Lines, kit.Pick(r, c30HistPool))
 		}
 		if r.Chance(1, 4) {
@@ -423,6 +455,10 @@ func genC30(c *Case, r *kit.Rand) {
 			continue
 		}
 		c.Prog = append(c.Prog, kit.Pick(r, c30ProgPool))
+	}
+	if r.Chance(1, 2) {
+		// P ends by printing all the state the composed statements can touch
+		c.Prog = append(c.Prog, dumpLines(false)...)
 	}
 	c.Stdin = kit.Pick(r, []string{"nil", "nil", "data:in1\nin2\nin3\nin4\n", "closed"})
 	if r.Chance(1, 5) {
@@ -529,6 +565,17 @@ var c31Pool = []c31Prog{
 	{"err-trap-read", []string{"trap 'read z' ERR", "false"}, "silent"},
 	{"exit-trap-wait", []string{"trap 'wait' EXIT", "sleep 1000 &"}, "nil"},
 	{"function-trap-loop", []string{"tf() { while :; do :; done; }", "trap tf EXIT", "true"}, "nil"},
+	{"read-endless-device", []string{"read x < /dev/zero"}, "nil"},
+	{"read-array-endless-device", []string{"read -r -a arr < /dev/zero"}, "nil"},
+	{"mapfile-endless-lines", []string{"mapfile -t lines < /dev/yes"}, "nil"},
+	{"read-loop-endless-lines", []string{"while read l; do :; done < /dev/yes"}, "nil"},
+	{"select-endless-lines", []string{"select o in a b; do :; done < /dev/yes"}, "nil"},
+	{"read-d-endless-lines", []string{"read -d '' x < /dev/yes"}, "nil"},
+	{"procsubst-unopened-in-cmdsubst", []string{"x=$(echo <(echo hi))"}, "nil"},
+	{"procsubst-out-unopened-in-cmdsubst", []string{"echo \"got $(: >(read line))\""}, "nil"},
+	{"if-subshell-loop", []string{"if (while true; do :; done); then echo y; fi", "echo after"}, "nil"},
+	{"while-subshell-read-wait", []string{"while (read x & wait); do :; done", "echo after"}, "silent"},
+	{"negated-subshell-loop", []string{"! (while true; do :; done)", "echo after"}, "nil"},
 	{"select-in-pipe", []string{"select o in a b; do echo $o; done | drain"}, "silent"},
 	{"select-after-reply", []string{"select o in a b; do echo got; done"}, "datasilent:1\n"},
 	{"read-n-silent", []string{"read -n 3 x"}, "silent"},
@@ -565,6 +612,10 @@ var c31Prefix = []string{"a=1", "echo start", "f0() { :; }", "x=$(echo sub)", "f
 
 func genC31(c *Case, r *kit.Rand, idx int, tier string) {
 	p := c31Pool[idx%len(c31Pool)]
+	if idx >= 24*len(c31Pool) {
+		// beyond the enumerated (shape, step) pairs: composed programs
+		p.name, p.lines, p.stdin = genC31Composed(r.Fork("composed"))
+	}
 	c.Kind = p.name
 	c.Stdin = p.stdin
 	for i := r.Intn(4); i > 0; i-- {
@@ -596,7 +647,7 @@ func baseSpec(c *Case) RunSpec {
 	if stdin == "" {
 		stdin = "nil"
 	}
-	return RunSpec{Strategy: c.Strategy, CancelStep: -1, CancelProg: -1, PipeCap: c.PipeCap, FaultProg: -1, Stdin: stdin, Files: simDirs, StdoutFail: -1, EnvArrays: c.EnvArrays}
+	return RunSpec{Strategy: c.Strategy, CancelStep: -1, CancelProg: -1, PipeCap: c.PipeCap, FaultProg: -1, Stdin: stdin, Files: simDirs, StdoutFail: -1, EnvArrays: c.EnvArrays, Params: c.Params}
 }
 
 func seqSpec(c *Case) RunSpec {
@@ -640,6 +691,38 @@ func tapeHash(t []int) uint64 {
 	return kit.Hash64(b)
 }
 
+// soloSpec is the case's statements run plainly: every statement list of the
+// case at top level (inside a function if the case is), one after the other,
+// on one goroutine, no faults, no cancellation.
+func (c *Case) soloSpec() *RunSpec {
+	var lines []string
+	lines = append(lines, c.Setup...)
+	for _, h := range c.History {
+		lines = append(lines, h.Lines...)
+	}
+	lines = append(lines, c.S...)
+	lines = append(lines, c.T...)
+	lines = append(lines, c.Sub...)
+	lines = append(lines, c.Prog...)
+	var kept []string
+	for _, l := range lines {
+		if !hangsForever([]string{l}) {
+			kept = append(kept, l)
+		}
+	}
+	if c.InFunc {
+		kept = wrapInFunc(kept)
+	}
+	s := baseSpec(c)
+	s.Strategy = Strategy{Kind: "sequential"}
+	s.Programs = []string{joinProg(kept)}
+	s.MaxSteps = 4000
+	if c.Property == "C31" {
+		s.Programs = []string{":"} // every C31 program blocks by design
+	}
+	return &s
+}
+
 // Evaluate runs a case (its test run and any reference run) and applies the
 // oracle of its property.
 func Evaluate(t *testing.T, c *Case, raceLog func() string) *Verdict {
@@ -677,10 +760,28 @@ func Evaluate(t *testing.T, c *Case, raceLog func() string) *Verdict {
 	}
 	crash := func(res *RunResult) bool {
 		if res.Panic != "" {
+			// The same statements run plainly one after the other: a panic
+			// there too has nothing to do with the construct the property is
+			// about (subshell, job, reuse, ...); the claimed properties do
+			// not cover plain interpreter crashes, so it is tallied, not
+			// reported.
+			if solo := Execute(t, c.soloSpec()); solo.Panic != "" {
+				v.Skipped = "interpreter panic that also happens when the statements run plainly in sequence (outside the claimed properties): " + kit.Clip(solo.Panic, 160)
+				v.OK = true
+				return true
+			}
 			fail("panic", "panic:"+c.Kind, "panic in the interpreter: "+res.Panic, res)
 			return true
 		}
 		return false
+	}
+	if c.Solo {
+		res := Execute(t, c.soloSpec())
+		v.Runs++
+		if res.Panic != "" {
+			v.OK, v.Class, v.Detail = false, "solo-panic", res.Panic
+		}
+		return v
 	}
 	switch c.Property {
 	case "C27":
@@ -810,8 +911,10 @@ func Evaluate(t *testing.T, c *Case, raceLog func() string) *Verdict {
 		key := c.Kind
 		a, b := ref.last(), res.last()
 		switch {
-		case a.Stdout != b.Stdout:
-			fail("reuse-differs", key+":stdout", what+": stdout differs: "+firstLineDiff(a.Stdout, b.Stdout), res)
+		case canonOutput(a.Stdout) != canonOutput(b.Stdout):
+			// "alias" and "declare -p" of an associative array print in Go
+			// map order: compared as sets (canonOutput)
+			fail("reuse-differs", key+":stdout", what+": stdout differs: "+firstLineDiff(canonOutput(a.Stdout), canonOutput(b.Stdout)), res)
 		case a.Stderr != b.Stderr:
 			fail("reuse-differs", key+":stderr", what+": stderr differs: "+firstLineDiff(a.Stderr, b.Stderr), res)
 		case a.Err != b.Err:
